@@ -59,6 +59,12 @@ type at struct {
 func walk(c Case, f func(op Op, s at) bool) bool {
 	var s at
 	lists, notes := 0, 0
+	// a history that uses two document objects alternately (swap): the state of the one that is not the current
+	type side struct {
+		s            at
+		lists, notes int
+	}
+	var alt *side
 	if c.Start != nil {
 		s.saved = true
 		s.opened = true
@@ -70,6 +76,20 @@ func walk(c Case, f func(op Op, s at) bool) bool {
 			return true
 		}
 		switch {
+		case op.K == "swap":
+			cur := side{s, lists, notes}
+			switch {
+			case alt != nil:
+				s, lists, notes = alt.s, alt.lists, alt.notes
+			case len(op.B) > 0 && op.B[0]:
+				// the second document is opened from a save of the current one
+				cur.s.saved = true
+				s.saved, s.opened = true, true
+				s.freshLists, s.freshNt = s.freshLists || lists > 0, s.freshNt || notes > 0
+			default:
+				s, lists, notes = at{}, 0, 0
+			}
+			alt = &cur
 		case op.K == "save":
 			s.saved = true
 		case op.K == "reopen":
@@ -114,8 +134,27 @@ var reEmitted = regexp.MustCompile(`^(Heading[1-9]|1[2-9]|2[01])$`)
 func revertedOnOpened(c Case, id string) bool {
 	opened := c.Start != nil
 	phase := 0 // 0 nothing yet, 1 a style was changed on the opened object, 2 ... and a save followed
+	type side struct {
+		opened bool
+		phase  int
+	}
+	var alt *side
 	for _, op := range c.Ops {
 		switch {
+		case op.K == "swap":
+			cur := side{opened, phase}
+			switch {
+			case alt != nil:
+				opened, phase = alt.opened, alt.phase
+			case len(op.B) > 0 && op.B[0]:
+				if cur.opened && cur.phase == 1 {
+					cur.phase = 2 // the save the second document is opened from
+				}
+				opened, phase = true, 0
+			default:
+				opened, phase = false, 0
+			}
+			alt = &cur
 		case op.K == "reopen":
 			opened, phase = true, 0
 		case op.K == "md":
@@ -142,8 +181,22 @@ func revertedOnOpened(c Case, id string) bool {
 // predefined definition - and an in-place change (st.mod) follows on the opened document.
 func predefinedSetBackAfterReopen(c Case, id string) bool {
 	redefined, armed := false, false
+	type side struct{ redefined, armed bool }
+	var alt *side
 	for _, op := range c.Ops {
 		switch {
+		case op.K == "swap":
+			cur := side{redefined, armed}
+			switch {
+			case alt != nil:
+				redefined, armed = alt.redefined, alt.armed
+			case len(op.B) > 0 && op.B[0]:
+				// opened from a save of the current document: what that one re-defined is in the file
+				armed = armed || redefined
+			default:
+				redefined, armed = false, false
+			}
+			alt = &cur
 		case op.K == "md":
 			redefined, armed = false, false
 		case op.K == "reopen":
@@ -179,7 +232,15 @@ var findings = []kit.Finding[Case]{
 			if !ok || kind != "style" || f.Clause != "C13.X4.attr" || !flags["late-style"] || !isPredefinedID(id) {
 				return false
 			}
-			return predefinedSetBackAfterReopen(c, id)
+			if predefinedSetBackAfterReopen(c, id) {
+				return true
+			}
+			// second input class of the same root cause: the history starts from a package with localised ids, whose styles
+			// part bases the (unrenamed) predefined id on the renamed Normal ("a" / "1"); GetStyle shows the predefined
+			// definition based on "Normal", and an in-place change of that style's base to exactly that value is no change
+			// for the library. Only the based-on field can differ this way.
+			return c.Start != nil && c.Start.Scheme != "none" && strings.Contains(f.Detail, "field basedOn:") &&
+				hasOp(c, func(op Op) bool { return op.K == "st.mod" && len(op.B) > 1 && op.B[1] && len(op.I) > 1 && op.I[1] == 1 })
 		},
 	},
 	{
